@@ -5,6 +5,7 @@ import (
 	"errors"
 	"fmt"
 	"io"
+	"os"
 	"strings"
 
 	"github.com/tdewolff/minify/v2/verifsync"
@@ -205,6 +206,8 @@ func c14Case(env *Env, tape *sim.Tape) *CaseOut {
 		site += ":embedded(" + doc.MT + ")"
 	}
 	out.Key = HashOf(di, embed, trunc, entry, fk, kw, kr, useBytes, st.TraceHash)
+	out.TraceHash = st.TraceHash
+	out.Digest = HashOf(op.Out, errText(op.Err), errText(op.CloseErr))
 	if trunc >= 0 {
 		out.stat("probe_truncated_document", 1)
 	}
@@ -344,6 +347,9 @@ func c14Search(s *Search) {
 	}
 	ndoc := 0
 	for di, doc := range env.Corpus {
+		if os.Getenv("VERIF_RANDOM_ONLY") != "" {
+			break
+		}
 		if !s.Mine(di) || len(doc.Data) > maxDoc {
 			continue
 		}
